@@ -126,15 +126,15 @@ func init() {
 
 	streams["stall"] = func(g *gen, cw *caseWriter, n int, thorough bool) {
 		type stallCase struct {
-			name        string
-			phase       int // 0 = authentication reply, 1 = user reply, 2 = request direction (peer stops reading)
-			offset      int
-			mode        string // stall | trickle | endless-zero | endless-random | oversize
-			ct, st, rt  time.Duration
-			buf         uint16
-			took        time.Duration
-			bound       time.Duration
-			res         string
+			name       string
+			phase      int // 0 = authentication reply, 1 = user reply, 2 = request direction (peer stops reading)
+			offset     int
+			mode       string // stall | trickle | endless-zero | endless-random | oversize
+			ct, st, rt time.Duration
+			buf        uint16
+			took       time.Duration
+			bound      time.Duration
+			res        string
 		}
 		var cases []*stallCase
 		cfgs := [][3]time.Duration{{300 * time.Millisecond, 150 * time.Millisecond, 150 * time.Millisecond}}
@@ -160,6 +160,126 @@ func init() {
 		}
 		// zero / negative timeouts must fall back to 3 s, not to "no timeout"
 		cases = append(cases, &stallCase{name: "default-timeouts", phase: 1, offset: 10, mode: "stall", ct: 0, st: -1, rt: 0})
+		runStall := func(c *stallCase) {
+			key := "stallkey"
+			cl, err := rscp.NewClient(rscp.ClientConfig{Address: "a", Username: "u", Password: "p", Key: key, ConnectionTimeout: c.ct, SendTimeout: c.st, ReceiveTimeout: c.rt, ReceiveBufferBlockSize: c.buf})
+			if err != nil {
+				c.res = "newclient-error"
+				return
+			}
+			eff := cl.VerifConfig()
+			c.bound = 2*eff.SendTimeout + 2*eff.ReceiveTimeout // the connection is attached: no dial
+			a, b, err := tcpPair()
+			if err != nil {
+				c.res = "no-loopback"
+				return
+			}
+			cl.VerifAttachConn(a)
+			p := newPeer(key)
+			reqNo := 0
+			p.decide = func(conn int, f peerFrame) behaviour { return behaviour{} }
+			go func() {
+				defer b.Close()
+				pc := newPeerCipher(key)
+				rb := make([]byte, 32)
+				for {
+					if c.phase == 2 {
+						// never read: the client's write must run into the send timeout
+						time.Sleep(c.bound + 3*time.Second)
+						return
+					}
+					// read one frame (the requests used here are one or two blocks)
+					n := 0
+					var plain []byte
+					for {
+						if _, err := readFullConn(b, rb); err != nil {
+							return
+						}
+						d := make([]byte, 32)
+						pc.dec.CryptBlocks(d, rb)
+						plain = append(plain, d...)
+						n++
+						need := 18 + int(plain[16]) + int(plain[17])<<8 + 4
+						if len(plain) >= need {
+							break
+						}
+					}
+					var reply []byte
+					if reqNo == 0 {
+						reply = frameBytes(itemBytes(uint32(rscp.RSCP_AUTHENTICATION), 3, []byte{10}), true, 1, 2)
+					} else {
+						reply = frameBytes(itemBytes(uint32(rscp.INFO_SERIAL_NUMBER), 13, []byte("0123456789012345678901234567890")), true, 1, 2)
+					}
+					ct := make([]byte, len(reply))
+					pc.enc.CryptBlocks(ct, reply)
+					if reqNo == c.phase {
+						switch c.mode {
+						case "stall":
+							if c.offset > 0 {
+								b.Write(ct[:min(c.offset, len(ct))])
+							}
+							time.Sleep(c.bound + 3*time.Second)
+							return
+						case "trickle":
+							for i := 0; ; i++ {
+								if _, err := b.Write([]byte{ct[i%len(ct)]}); err != nil {
+									return
+								}
+								time.Sleep(40 * time.Millisecond)
+							}
+						case "endless-zero", "endless-random":
+							blk := make([]byte, 32)
+							for {
+								if c.mode == "endless-random" {
+									for j := range blk {
+										blk[j] = byte(j*7 + 3)
+									}
+								}
+								if _, err := b.Write(blk); err != nil {
+									return
+								}
+							}
+						case "oversize":
+							big := frameBytes(make([]byte, 65000), true, 1, 2)
+							ob := make([]byte, len(big))
+							pc.enc.CryptBlocks(ob, big)
+							for i := 0; i < len(ob); i += 32 {
+								if _, err := b.Write(ob[i : i+32]); err != nil {
+									return
+								}
+								time.Sleep(2 * time.Millisecond)
+							}
+							time.Sleep(c.bound + 3*time.Second)
+							return
+						}
+					}
+					b.Write(ct)
+					reqNo++
+				}
+			}()
+			t0 := time.Now()
+			done := make(chan string, 1)
+			go func() {
+				defer func() {
+					if r := recover(); r != nil {
+						done <- "panic"
+					}
+				}()
+				_, err := cl.Send(rscp.Message{Tag: rscp.INFO_REQ_SERIAL_NUMBER, DataType: rscp.None})
+				if err != nil {
+					done <- "err"
+				} else {
+					done <- "ok"
+				}
+			}()
+			select {
+			case c.res = <-done:
+			case <-time.After(c.bound + 2500*time.Millisecond):
+				c.res = "blocked"
+			}
+			c.took = time.Since(t0)
+			a.Close()
+		}
 		var wg sync.WaitGroup
 		sem := make(chan struct{}, 16)
 		for _, c := range cases {
@@ -168,127 +288,16 @@ func init() {
 			go func(c *stallCase) {
 				defer wg.Done()
 				defer func() { <-sem }()
-				key := "stallkey"
-				cl, err := rscp.NewClient(rscp.ClientConfig{Address: "a", Username: "u", Password: "p", Key: key, ConnectionTimeout: c.ct, SendTimeout: c.st, ReceiveTimeout: c.rt, ReceiveBufferBlockSize: c.buf})
-				if err != nil {
-					c.res = "newclient-error"
-					return
-				}
-				eff := cl.VerifConfig()
-				c.bound = 2*eff.SendTimeout + 2*eff.ReceiveTimeout // the connection is attached: no dial
-				a, b, err := tcpPair()
-				if err != nil {
-					c.res = "no-loopback"
-					return
-				}
-				cl.VerifAttachConn(a)
-				p := newPeer(key)
-				reqNo := 0
-				p.decide = func(conn int, f peerFrame) behaviour { return behaviour{} }
-				go func() {
-					defer b.Close()
-					pc := newPeerCipher(key)
-					rb := make([]byte, 32)
-					for {
-						if c.phase == 2 {
-							// never read: the client's write must run into the send timeout
-							time.Sleep(c.bound + 3*time.Second)
-							return
-						}
-						// read one frame (the requests used here are one or two blocks)
-						n := 0
-						var plain []byte
-						for {
-							if _, err := readFullConn(b, rb); err != nil {
-								return
-							}
-							d := make([]byte, 32)
-							pc.dec.CryptBlocks(d, rb)
-							plain = append(plain, d...)
-							n++
-							need := 18 + int(plain[16]) + int(plain[17])<<8 + 4
-							if len(plain) >= need {
-								break
-							}
-						}
-						var reply []byte
-						if reqNo == 0 {
-							reply = frameBytes(itemBytes(uint32(rscp.RSCP_AUTHENTICATION), 3, []byte{10}), true, 1, 2)
-						} else {
-							reply = frameBytes(itemBytes(uint32(rscp.INFO_SERIAL_NUMBER), 13, []byte("0123456789012345678901234567890")), true, 1, 2)
-						}
-						ct := make([]byte, len(reply))
-						pc.enc.CryptBlocks(ct, reply)
-						if reqNo == c.phase {
-							switch c.mode {
-							case "stall":
-								if c.offset > 0 {
-									b.Write(ct[:min(c.offset, len(ct))])
-								}
-								time.Sleep(c.bound + 3*time.Second)
-								return
-							case "trickle":
-								for i := 0; ; i++ {
-									if _, err := b.Write([]byte{ct[i%len(ct)]}); err != nil {
-										return
-									}
-									time.Sleep(40 * time.Millisecond)
-								}
-							case "endless-zero", "endless-random":
-								blk := make([]byte, 32)
-								for {
-									if c.mode == "endless-random" {
-										for j := range blk {
-											blk[j] = byte(j*7 + 3)
-										}
-									}
-									if _, err := b.Write(blk); err != nil {
-										return
-									}
-								}
-							case "oversize":
-								big := frameBytes(make([]byte, 65000), true, 1, 2)
-								ob := make([]byte, len(big))
-								pc.enc.CryptBlocks(ob, big)
-								for i := 0; i < len(ob); i += 32 {
-									if _, err := b.Write(ob[i : i+32]); err != nil {
-										return
-									}
-									time.Sleep(2 * time.Millisecond)
-								}
-								time.Sleep(c.bound + 3*time.Second)
-								return
-							}
-						}
-						b.Write(ct)
-						reqNo++
-					}
-				}()
-				t0 := time.Now()
-				done := make(chan string, 1)
-				go func() {
-					defer func() {
-						if r := recover(); r != nil {
-							done <- "panic"
-						}
-					}()
-					_, err := cl.Send(rscp.Message{Tag: rscp.INFO_REQ_SERIAL_NUMBER, DataType: rscp.None})
-					if err != nil {
-						done <- "err"
-					} else {
-						done <- "ok"
-					}
-				}()
-				select {
-				case c.res = <-done:
-				case <-time.After(c.bound + 2500*time.Millisecond):
-					c.res = "blocked"
-				}
-				c.took = time.Since(t0)
-				a.Close()
+				runStall(c)
 			}(c)
 		}
 		wg.Wait()
+		// a case that exceeded its bound while 16 ran in parallel is measured once more on its own before it counts
+		for _, c := range cases {
+			if c.res == "blocked" || c.took > c.bound+1200*time.Millisecond {
+				runStall(c)
+			}
+		}
 		for _, c := range cases {
 			prop := "pass"
 			slack := 1200 * time.Millisecond
